@@ -6,11 +6,11 @@ CONSTANTS
   MaxSeq = 3
   PrunePositions <- AllPositions
   MaxDeliver = 4
-  MaxInFlight = 1
+  MaxInFlight = 3
   ForgeBudget = 0
   Classes <- AllClasses
   FineIngest = FALSE
-  Batch = FALSE
+  Batch = TRUE
   Worker = {}
   Variant_ReadLatestBeforeBegin = FALSE
   Defect_PruneAfterFailedIngest = FALSE
